@@ -1,6 +1,7 @@
 package main
 
 import (
+	"bufio"
 	"bytes"
 	"context"
 	"fmt"
@@ -106,7 +107,7 @@ func (s *structBody) Decode(r stream.Reader) error {
 	return err
 }
 
-var seekAlt int
+var seekAlt, plainAlt int
 
 func implReadRequest(et uint8, b []byte, sizes []int, seekable bool) (res string, rw stream.ResponseWriter) {
 	p := safely(func() {
@@ -124,7 +125,16 @@ func implReadRequest(et uint8, b []byte, sizes []int, seekable bool) (res string
 			}
 			w, err = binary.Default.ReadRequest(context.Background(), wire.EnvelopeType(int8(et)), src, body)
 		} else {
-			w, err = binary.Default.ReadRequest(context.Background(), wire.EnvelopeType(int8(et)), maybePipe(newChunkReader(b, sizes)), body)
+			// the kinds of reader a server really hands over: the raw stream, a bufio.Reader around
+			// it, a bytes.Buffer holding the message (the last two can un-read one byte, not two)
+			var src io.Reader = maybePipe(newChunkReader(b, sizes))
+			switch plainAlt++; plainAlt % 4 {
+			case 1:
+				src = bufio.NewReaderSize(newChunkReader(b, sizes), 16)
+			case 3:
+				src = bytes.NewBuffer(append([]byte{}, b...))
+			}
+			w, err = binary.Default.ReadRequest(context.Background(), wire.EnvelopeType(int8(et)), src, body)
 		}
 		if err != nil {
 			res = "err"
@@ -335,5 +345,5 @@ func runC12(c *checker, r *rng.R) {
 	c.flush()
 	runC12Server(c, r)
 	c.flush()
-	c.rep.Rule = "envelopes: names 1..2^16 bytes (non-UTF8, ':'-multiplexed), types 0..127, seqids at int32 boundaries, random struct bodies × 3 framings × {DecodeRequest, ReadRequest non-seekable (every other one with a Seek method that always fails, like a pipe) under random segmentation incl. 1-byte/zero-length first reads, ReadRequest seekable, every other source already read from (the request starts at offset 1–3)} × right/wrong expected type, replies through both responder APIs; plus mutated envelopes and random bytes for classification agreement; plus internal/envelope.Server over internal/multiplex (through the verif hook): enveloped Calls in both framings to known / unknown services and methods and a failing handler — the answer must echo name and sequence id, be a Reply with the handler's value or an Exception; the same through envelope.Client + multiplex.Client; responses retained across later requests and a server shared by 8 goroutines (a response must stay what it was); every case non-trivial; distinct by canonical text"
+	c.rep.Rule = "envelopes: names 1..2^16 bytes (non-UTF8, ':'-multiplexed), types 0..127, seqids at int32 boundaries, random struct bodies × 3 framings × {DecodeRequest, ReadRequest non-seekable (plain, with a Seek method that always fails like a pipe, behind a bufio.Reader, from a bytes.Buffer) under random segmentation incl. 1-byte/zero-length first reads, ReadRequest seekable, every other source already read from (the request starts at offset 1–3)} × right/wrong expected type, replies through both responder APIs; plus mutated envelopes and random bytes for classification agreement; plus internal/envelope.Server over internal/multiplex (through the verif hook): enveloped Calls in both framings to known / unknown services and methods and a failing handler — the answer must echo name and sequence id, be a Reply with the handler's value or an Exception; the same through envelope.Client + multiplex.Client; responses retained across later requests and a server shared by 8 goroutines (a response must stay what it was); every case non-trivial; distinct by canonical text"
 }
